@@ -5,6 +5,7 @@ import (
 	"go/constant"
 	"go/token"
 	"go/types"
+	"os"
 	"strings"
 
 	"golang.org/x/tools/go/ssa"
@@ -80,6 +81,7 @@ func c06(r *core.Run) {
 	r.Rule("R9", "the matcher does not give up early: every `false` the recursive matcher returns is produced on the edge where the full-wildcard child was found absent - after the literal and the placeholder child were tried; a `return false` before that (for instance at a handler-less literal node that only exists as part of a longer pattern) hides the placeholder and wildcard patterns that match the name", 1)
 	r.Rule("R10", "registration accepts the documented token forms: analysed under the assumption that the current pattern token is exactly \"*\" (the anonymous placeholder of the Handle documentation, accepted by Pattern.IsValid) and, separately, a one-letter literal, the trie insertion reaches no panic (branches on the token's length and first byte are pruned by the assumption)", 2)
 	r.Rule("R11", "traversals are mount-aware: every function that descends the trie through literal, placeholder and wildcard children while carrying a position parameter tests the node's mounted flag and rebinds its mount index there, passing the rebound value to its recursive calls (the matcher and the registration-time traversal alike); placeholder positions are stored relative to the mux they were added to", 2)
+	r.Rule("R14", "the reported group is the registered one (shared with C01.F2): Match.Group is the handler's group template evaluated on the full resource name (so that an unset group is the resource name), also for the root pattern; resources and requests report that group and every enqueue is keyed by it", 5)
 	r.Rule("R12", "only nodes with a handler are accepted: every exact-match accept site of the matcher lies behind the non-nil test of the accepted node's handler (the full-wildcard site excepted: such a node is only created for a registration)", 1)
 	r.Rule("R8", "Parallel means the empty group (shared with C01.F2): registration parses the group template from Handler.Group only on the !Parallel edge, so a Parallel handler is stored with the empty group whatever its Group option says (lookup then reports an empty group for it)", 1)
 	c01ParallelGroup(r, "R8")
@@ -94,6 +96,9 @@ func c06(r *core.Run) {
 	c17ExactTokens(r, "R13", []string{""}, "mux")
 	if ro := resolveMuxRolesFor(r, "R2"); ro != nil {
 		c06DefaultGroupOnlyWithoutGroup(r, "R2", ro)
+	}
+	if sa := resolveSvc(r, "R14"); sa.ok {
+		c01GroupArg(r, "R14", sa, r.P.FuncsOfPkg(""))
 	}
 	c06NoEarlyFailure(r, "R9", ro)
 	c06RegistrationAccepts(r, "R10", ro)
@@ -775,63 +780,7 @@ func c06Registration(r *core.Run, root []*ssa.Function, ro *muxRoles) {
 		_, a2 := gs[ro.muxSvc.String()+"!=nil"]
 		r.Check(a1 && a2, "R3", core.FuncName(fn), "already-mounted/registered-panic", p.Pos(fn.Pos()), "a mux can be mounted once and not after registration", "Mount does not reject an already mounted / registered mux")
 	}
-	// setAndValidateParams: mismatch panics
-	if fn := ro.setParams; fn != nil {
-		n := 0
-		for _, b := range fn.Blocks {
-			if _, ok := b.Instrs[len(b.Instrs)-1].(*ssa.Panic); ok {
-				n++
-			}
-		}
-		r.Check(n >= 2, "R3", core.FuncName(fn), "mismatch-panics", p.Pos(fn.Pos()), "count and name/position mismatches panic", "setAndValidateParams no longer rejects conflicting placeholders")
-		// every member of a path parameter is compared between the new registration and the node
-		// (a listener and a handler on one node may reach it through patterns that place the same
-		// names on different tokens: model.$id.* and model.*.$id)
-		if st, ok := structType(p, "", "pathParam"); ok {
-			compared := map[string]bool{}
-			fieldOfElem := func(v ssa.Value) (string, ssa.Value) {
-				switch x := core.Strip(v).(type) {
-				case *ssa.Field:
-					if f, ok := core.FieldOf(x); ok && f.Struct == "pathParam" {
-						return f.Name, x.X
-					}
-				case *ssa.UnOp:
-					if fa, ok := x.X.(*ssa.FieldAddr); ok {
-						if f, ok := core.FieldOf(fa); ok && f.Struct == "pathParam" {
-							return f.Name, fa.X
-						}
-					}
-				}
-				return "", nil
-			}
-			for _, b := range fn.Blocks {
-				for _, in := range b.Instrs {
-					bo, ok := in.(*ssa.BinOp)
-					if !ok || (bo.Op != token.NEQ && bo.Op != token.EQL) {
-						continue
-					}
-					if core.TypeName(bo.X.Type()) == "pathParam" && core.TypeName(bo.Y.Type()) == "pathParam" {
-						for i := 0; i < st.NumFields(); i++ {
-							compared[st.Field(i).Name()] = true // whole-struct comparison
-						}
-						continue
-					}
-					fx, bx := fieldOfElem(bo.X)
-					fy, by := fieldOfElem(bo.Y)
-					if fx != "" && fx == fy && bx != by {
-						compared[fx] = true
-					}
-				}
-			}
-			var missing []string
-			for i := 0; i < st.NumFields(); i++ {
-				if !compared[st.Field(i).Name()] {
-					missing = append(missing, st.Field(i).Name())
-				}
-			}
-			r.Check(len(missing) == 0, "R3", core.FuncName(fn), "params-compared-member-by-member", p.Pos(fn.Pos()), "name and token index of every placeholder are compared with those already set on the node", fmt.Sprintf("the placeholders of a new registration are compared with the node's without their member(s) %v: a listener and a handler that put the same names on different tokens are both accepted, and the one registered first decides which token the other's path parameter is taken from", missing))
-		}
-	}
+	c06ParamsCompared(r, "R3", ro)
 	// serve returns ValidateListeners' error first
 	for _, fn := range methodsOf(p, "", "Service") {
 		// role: the (unexported) Service method that calls the exported ValidateListeners
@@ -1593,6 +1542,61 @@ func c06RegistrationAccepts(r *core.Run, rule string, ro *muxRoles) {
 				}
 				return 0
 			}
+			// a short-circuit flag (a || b as a bool phi): the inputs that can arrive - an input whose
+			// predecessor block branches away from the merge block under the assumption cannot - must
+			// agree
+			if phi, isPhi := v.(*ssa.Phi); isPhi && depthEval < 3 {
+				if bt, isB := phi.Type().Underlying().(*types.Basic); isB && bt.Kind() == types.Bool {
+					depthEval++
+					defer func() { depthEval-- }()
+					// arrives: control can pass from block q to block b under the assumption
+					arrives := func(q, b *ssa.BasicBlock) bool {
+						if iff, isIf := q.Instrs[len(q.Instrs)-1].(*ssa.If); isIf && len(q.Succs) == 2 && q.Succs[0] != q.Succs[1] {
+							if c := eval(iff.Cond); c != 0 {
+								taken := q.Succs[0]
+								if c == 2 {
+									taken = q.Succs[1]
+								}
+								return taken == b
+							}
+						}
+						return true
+					}
+					var feasible func(b *ssa.BasicBlock, d int) bool
+					feasible = func(b *ssa.BasicBlock, d int) bool {
+						if d > 3 || len(b.Preds) == 0 {
+							return true
+						}
+						for _, q := range b.Preds {
+							if arrives(q, b) && feasible(q, d+1) {
+								return true
+							}
+						}
+						return false
+					}
+					var got int8
+					for i, e := range phi.Edges {
+						pred := phi.Block().Preds[i]
+						if !arrives(pred, phi.Block()) || !feasible(pred, 0) {
+							continue // this input cannot arrive
+						}
+						var r int8
+						if k, isK := e.(*ssa.Const); isK && k.Value != nil && k.Value.Kind() == constant.Bool {
+							r = 2
+							if constant.BoolVal(k.Value) {
+								r = 1
+							}
+						} else {
+							r = eval(e)
+						}
+						if r == 0 || (got != 0 && got != r) {
+							return 0
+						}
+						got = r
+					}
+					return got
+				}
+			}
 			bo, ok := v.(*ssa.BinOp)
 			if !ok {
 				return 0
@@ -1741,6 +1745,36 @@ func c06RegistrationAccepts(r *core.Run, rule string, ro *muxRoles) {
 			}
 		}
 		r.Check(bad == "", rule, core.FuncName(fn), "accepts-token:"+sc.what, p.Pos(fn.Pos()), "no panic is reachable in the trie insertion when the token is \""+sc.text+"\"", "registration panics (at "+bad+") for a pattern token \""+sc.text+"\": a pattern the documentation calls valid and Pattern.IsValid accepts (\"user."+sc.text+"\") cannot be registered")
+	}
+	// ... and the malformed wildcard forms are refused by the insertion itself (AddListener and the
+	// Listeners of a handler reach it without the pattern validator): with every token assumed to be
+	// the form, no return of the insertion is reachable
+	for _, sc := range []struct{ text, what string }{{">x", "full-wildcard-with-suffix"}, {"*x", "anonymous-placeholder-with-suffix"}, {"$", "unnamed-placeholder"}} {
+		// state 1: a token has been read on this path (a pattern without tokens runs no iteration)
+		fl := &core.Flow{Fn: fn, Entry: core.StateSet(0).Add(0), Tags: true, EvalBool: scenario(sc.text),
+			Inline: func(cal *ssa.Function) bool { return unit[cal] && cal != fn }}
+		fl.Transfer = func(in ssa.Instruction, st int) core.StateSet {
+			if v, ok := in.(ssa.Value); ok && tok[v] {
+				return core.StateSet(0).Add(1)
+			}
+			return core.StateSet(0).Add(st)
+		}
+		res := fl.Run()
+		completes := ""
+		for _, ret := range core.Returns(fn) {
+			if res.Before[ret].Has(1) {
+				completes = p.InstrPos(ret)
+			}
+		}
+		if os.Getenv("RV_DEBUG_R10") != "" {
+			ev := scenario(sc.text)
+			for _, b := range fn.Blocks {
+				if iff, ok := b.Instrs[len(b.Instrs)-1].(*ssa.If); ok {
+					fmt.Fprintf(os.Stderr, "R10 %s block %d cond %s eval=%d before=%v\n", sc.text, b.Index, iff.Cond.String(), ev(iff.Cond), res.Before[iff].List())
+				}
+			}
+		}
+		r.Check(completes == "", rule, core.FuncName(fn), "refuses-token:"+sc.what, p.Pos(fn.Pos()), "the trie insertion cannot complete when a token is \""+sc.text+"\"", "the trie insertion completes (return at "+completes+") for a pattern token \""+sc.text+"\": a listener pattern of that form is registered although no name can be routed by it as written (AddListener does not run the pattern validator) - the node it plants changes what other names resolve to")
 	}
 }
 
@@ -2070,5 +2104,70 @@ func c06DefaultGroupOnlyWithoutGroup(r *core.Run, rule string, ro *muxRoles) {
 	}
 	if n == 0 {
 		r.Bad(rule, core.FuncName(ts), "resource-name-returned-only-for-the-nil-group", p.Pos(ts.Pos()), "the group evaluator never returns the resource name (rule went vacuous)")
+	}
+}
+
+// c06ParamsCompared: setAndValidateParams rejects a registration whose
+// placeholders differ from the node's in count, name or position (C06.R3's
+// clause; shared as C05.M11 - the handler's path parameters carry its own
+// placeholder names).
+func c06ParamsCompared(r *core.Run, rule string, ro *muxRoles) {
+	p := r.P
+	// setAndValidateParams: mismatch panics
+	if fn := ro.setParams; fn != nil {
+		n := 0
+		for _, b := range fn.Blocks {
+			if _, ok := b.Instrs[len(b.Instrs)-1].(*ssa.Panic); ok {
+				n++
+			}
+		}
+		r.Check(n >= 2, rule, core.FuncName(fn), "mismatch-panics", p.Pos(fn.Pos()), "count and name/position mismatches panic", "setAndValidateParams no longer rejects conflicting placeholders")
+		// every member of a path parameter is compared between the new registration and the node
+		// (a listener and a handler on one node may reach it through patterns that place the same
+		// names on different tokens: model.$id.* and model.*.$id)
+		if st, ok := structType(p, "", "pathParam"); ok {
+			compared := map[string]bool{}
+			fieldOfElem := func(v ssa.Value) (string, ssa.Value) {
+				switch x := core.Strip(v).(type) {
+				case *ssa.Field:
+					if f, ok := core.FieldOf(x); ok && f.Struct == "pathParam" {
+						return f.Name, x.X
+					}
+				case *ssa.UnOp:
+					if fa, ok := x.X.(*ssa.FieldAddr); ok {
+						if f, ok := core.FieldOf(fa); ok && f.Struct == "pathParam" {
+							return f.Name, fa.X
+						}
+					}
+				}
+				return "", nil
+			}
+			for _, b := range fn.Blocks {
+				for _, in := range b.Instrs {
+					bo, ok := in.(*ssa.BinOp)
+					if !ok || (bo.Op != token.NEQ && bo.Op != token.EQL) {
+						continue
+					}
+					if core.TypeName(bo.X.Type()) == "pathParam" && core.TypeName(bo.Y.Type()) == "pathParam" {
+						for i := 0; i < st.NumFields(); i++ {
+							compared[st.Field(i).Name()] = true // whole-struct comparison
+						}
+						continue
+					}
+					fx, bx := fieldOfElem(bo.X)
+					fy, by := fieldOfElem(bo.Y)
+					if fx != "" && fx == fy && bx != by {
+						compared[fx] = true
+					}
+				}
+			}
+			var missing []string
+			for i := 0; i < st.NumFields(); i++ {
+				if !compared[st.Field(i).Name()] {
+					missing = append(missing, st.Field(i).Name())
+				}
+			}
+			r.Check(len(missing) == 0, rule, core.FuncName(fn), "params-compared-member-by-member", p.Pos(fn.Pos()), "name and token index of every placeholder are compared with those already set on the node", fmt.Sprintf("the placeholders of a new registration are compared with the node's without their member(s) %v: a listener and a handler that put the same names on different tokens are both accepted, and the one registered first decides which token the other's path parameter is taken from", missing))
+		}
 	}
 }
